@@ -313,7 +313,7 @@ func raceScenarios() []raceScenario {
 				refcodec.Encode(&refcodec.Packet{Type: refcodec.SUBSCRIBE, ID: 4, Topics: [][]byte{[]byte("t")}, QoSs: []byte{0}})...))
 		})
 		vsched.Quiesce()
-	}, false})
+	}, true})
 	// (x) in-process Subscribe / Unsubscribe || network publish on the same topic
 	out = append(out, raceScenario{"in-process Subscribe+Unsubscribe || network publish", func() {
 		t := newTD()
